@@ -208,6 +208,15 @@ func membershipSuccess(cond ssa.Value, truth bool, v ssa.Value, listAP string) b
 }
 
 func isHeaderGet(v ssa.Value, name string) bool {
+	// a parameter that receives the header value at every call site
+	if args := argsOfParam(v); len(args) > 0 {
+		for _, a := range args {
+			if a == v || !isHeaderGet(a, name) {
+				return false
+			}
+		}
+		return true
+	}
 	call, ok := v.(*ssa.Call)
 	if !ok || an.CalleeName(&call.Call) != "net/http.Header.Get" {
 		return false
@@ -255,13 +264,19 @@ func ruleOriginGrant(c *Ctx, rule string) {
 				c.R.Add(rule, c.fk(hw.f), "write:"+hACAO+"/value:"+an.AP(lf.v), c.pos(hw.in), false, "Access-Control-Allow-Origin is written with a value that is neither the constant '*' nor the request's Origin header: "+c.O.Of(lf.v).String())
 				continue
 			}
-			q := &an.Query{BlockEdge: guard}
+			q := &an.Query{BlockEdge: guard, Deep: deepDefault}
 			if lf.edge != nil {
 				q.TargetEdge = lf.edge
 			} else {
 				q.Target = func(in ssa.Instruction) bool { return in == hw.in }
 			}
-			path := q.Search(an.Entry(hw.f))
+			root := hw.f
+			if h, _, _ := corsFuncs(c); h != hw.f {
+				if _, reach := an.NewGraph(c.P).Reach([]*ssa.Function{h}, nil)[hw.f]; reach {
+					root = h
+				}
+			}
+			path := q.Search(an.Entry(root))
 			o := c.R.Add(rule, c.fk(hw.f), "write:"+hACAO+"/value:"+desc, c.pos(hw.in), path == nil, ifelse(path == nil, ifelse(desc == "const:*", "'*' arrives only over the any-origin edge", "the request's Origin arrives only through the success edge of its membership test in the configured list"), ifelse(desc == "const:*", "'*' can be granted although '*' was not configured", "the request's Origin can be echoed without having passed the membership test in the configured list")))
 			if path != nil {
 				o.Path = c.P.PathString(path)
@@ -329,17 +344,18 @@ func ruleCredentials(c *Ctx, rule string) {
 		}
 		s, isConst := strConst(hw.val)
 		okVal := isConst && s == "true"
-		domOrigin := an.DominatedByInstr(hw.in, func(x ssa.Instruction) bool {
+		roots := c.corsRootsFor(hw.f)
+		domOrigin := an.DominatedByInstrDeep(roots, hw.in, func(x ssa.Instruction) bool {
 			for _, w := range writes {
-				if w.in == x && w.name == hACAO && w.op != "Del" && an.AP(w.hmap) == an.AP(hw.hmap) {
+				if w.in == x && w.name == hACAO && w.op != "Del" {
 					return true
 				}
 			}
 			return false
-		})
-		domFlag := an.DominatedByEdge(hw.in, func(b *ssa.BasicBlock, succ int) bool {
+		}, deepDefault)
+		domFlag := an.DominatedByEdgeDeep(roots, hw.in, func(b *ssa.BasicBlock, succ int) bool {
 			return edgeHas(b, succ, func(cond ssa.Value, truth bool) bool { return an.AP(cond) == "recv.AllowCredentials" && truth })
-		})
+		}, deepDefault)
 		good := okVal && domOrigin && domFlag
 		var why []string
 		if !okVal {
@@ -393,31 +409,52 @@ func ruleCredentials(c *Ctx, rule string) {
 		}
 	})
 	c.R.Add(rule+"b", c.fk(sanitize), "anyOrigins=Contains(Origins,*)", c.P.Pos(sanitize.Pos()), setOK, ifelse(setOK, "the any-origin flag is set exactly behind Contains(Origins, \"*\")", "the any-origin flag is not derived from the presence of '*' in the configured origins"))
-	// propagation of the error up to a panic
-	for _, step := range []struct{ caller, callee string }{
-		{"mux.(*options).sanitize", "mux.(*cors).sanitize"},
-		{"mux.buildOption", "mux.(*options).sanitize"},
-		{"mux.NewRouter", "mux.buildOption"},
-		{"mux.NewGroup", "mux.buildOption"},
-	} {
-		f := c.P.MustFunc(step.caller)
-		g := c.P.MustFunc(step.callee)
-		found := false
-		an.AllInstrs(f, func(in ssa.Instruction) {
-			call, ok := in.(*ssa.Call)
-			if !ok {
-				return
-			}
-			if _, is := calleeIs(in, g); !is {
-				return
-			}
-			found = true
-			ok2, why := errorPropagated(c, f, call)
-			c.R.Add(rule+"b", step.caller, "call:"+step.callee+"/error-not-dropped", c.pos(in), ok2, ifelse(ok2, "continues only on err == nil (returns or panics with the error otherwise)", "the configuration error can be dropped: "+why))
-		})
-		if !found {
-			c.R.Add(rule+"b", step.caller, "call:"+step.callee+"/error-not-dropped", c.P.Pos(f.Pos()), false, step.caller+" no longer calls "+step.callee+": the '*'+credentials rejection is not enforced on this construction path")
+	// propagation of the error up to a panic: every caller of an error-returning function of the chain continues
+	// only on err == nil; callers that return an error themselves extend the chain; the constructors end it
+	chain := []*ssa.Function{sanitize}
+	seenFn := map[*ssa.Function]bool{sanitize: true}
+	reached := map[string]bool{}
+	for len(chain) > 0 {
+		g := chain[0]
+		chain = chain[1:]
+		for _, f := range c.libFuncs() {
+			an.AllInstrs(f, func(in ssa.Instruction) {
+				call, ok := in.(*ssa.Call)
+				if !ok {
+					return
+				}
+				if _, is := calleeIs(in, g); !is {
+					return
+				}
+				ok2, why := errorPropagated(c, f, call)
+				c.R.Add(rule+"b", c.fk(f), "call:"+an.FuncKey(g)+"/error-not-dropped", c.pos(in), ok2, ifelse(ok2, "continues only on err == nil (returns or panics with the error otherwise)", "the configuration error can be dropped: "+why))
+				reached[c.fk(f)] = true
+				if an.ErrorResultIndex(f) >= 0 && !seenFn[f] {
+					seenFn[f] = true
+					chain = append(chain, f)
+				}
+			})
 		}
+	}
+	// a function without an error result that went through the chain (it panics with the error) covers its callers
+	for changed := true; changed; {
+		changed = false
+		for _, f := range c.libFuncs() {
+			if reached[c.fk(f)] {
+				continue
+			}
+			an.AllInstrs(f, func(in ssa.Instruction) {
+				if call := an.CallOf(in); call != nil {
+					if g := an.StaticCallee(call); g != nil && reached[an.FuncKey(g)] && an.ErrorResultIndex(g) < 0 && !reached[c.fk(f)] {
+						reached[c.fk(f)] = true
+						changed = true
+					}
+				}
+			})
+		}
+	}
+	for _, ctor := range []string{"mux.NewRouter", "mux.NewGroup"} {
+		c.R.Add(rule+"b", ctor, "configuration-validated", c.P.Pos(c.P.MustFunc(ctor).Pos()), reached[ctor], ifelse(reached[ctor], "the constructor runs the validated option builder", ctor+" no longer goes through the validation of the CORS configuration: '*' with credentials is accepted"))
 	}
 }
 
@@ -449,9 +486,9 @@ func ruleDeny(c *Ctx, rule string) {
 		if _, in := reach[hw.f]; !in || !isCorsHeader(hw.name) {
 			continue
 		}
-		dom := hw.f == handle && an.DominatedByEdge(hw.in, func(b *ssa.BasicBlock, succ int) bool {
+		dom := an.DominatedByEdgeDeep([]*ssa.Function{handle}, hw.in, func(b *ssa.BasicBlock, succ int) bool {
 			return edgeHas(b, succ, func(cond ssa.Value, truth bool) bool { return an.AP(cond) == "recv.deny" && !truth })
-		})
+		}, deepDefault)
 		c.R.Add(rule, c.fk(hw.f), "write:"+hw.name+"/behind:!deny", c.pos(hw.in), dom, ifelse(dom, "dominated by the false edge of deny", "a CORS header can be written although no origin is configured (deny)"))
 	}
 	// CORS headers are written nowhere else
@@ -479,7 +516,7 @@ func ruleCorsOnlyServed(c *Ctx, rule string) {
 			if _, ok := calleeIs(in, handle); !ok {
 				return
 			}
-			dom := an.DominatedByEdge(in, func(b *ssa.BasicBlock, succ int) bool {
+			dom := an.DominatedByEdgeDeep(c.rootsOf(f, 3), in, func(b *ssa.BasicBlock, succ int) bool {
 				return edgeHas(b, succ, func(cond ssa.Value, truth bool) bool {
 					ex, ok := cond.(*ssa.Extract)
 					if !ok || !truth {
@@ -492,7 +529,7 @@ func ruleCorsOnlyServed(c *Ctx, rule string) {
 					g := an.StaticCallee(&call.Call)
 					return g == c.A.TreeHandler && ex.Index == 2
 				})
-			})
+			}, deepDefault)
 			c.R.Add(rule, c.fk(f), "call:"+an.FuncKey(handle)+"/behind:served", c.pos(in), dom, ifelse(dom, "dominated by the true edge of Tree.Handler's served flag", "the CORS procedure runs for 404/405 responses too"))
 		})
 	}
@@ -532,8 +569,9 @@ func ruleRefusedPreflights(c *Ctx, rule string) {
 	handle, headerOK, _ := corsFuncs(c)
 	c.R.Rule(c.R.Property+"."+rule, 2, "a preflight for a method the route does not serve, or asking for a header outside the allowed list, never carries Access-Control-Allow-Origin")
 	var grants []ssa.Instruction
+	reachH := an.NewGraph(c.P).Reach([]*ssa.Function{handle}, nil)
 	for _, hw := range c.headerWrites() {
-		if hw.f == handle && hw.name == hACAO && hw.op != "Del" {
+		if _, in := reachH[hw.f]; in && hw.name == hACAO && hw.op != "Del" {
 			grants = append(grants, hw.in)
 		}
 	}
@@ -587,6 +625,7 @@ func ruleRefusedPreflights(c *Ctx, rule string) {
 			Assume:    preflightAssume,
 			Target:    isGrant,
 			BlockEdge: func(b *ssa.BasicBlock, succ int) bool { return edgeHas(b, succ, t.guard) },
+			Deep:      deepDefault,
 		}).Search(an.Entry(handle))
 		o := c.R.Add(rule, c.fk(handle), "preflight/grant-requires:"+t.name, c.P.Pos(handle.Pos()), path == nil, ifelse(path == nil, "on a preflight the origin grant is reachable only through the success edge of the "+t.name, t.bad))
 		if path != nil {
@@ -647,6 +686,24 @@ func ruleHeaderNameCase(c *Ctx, rule string) {
 				switch x := in.(type) {
 				case *ssa.Call:
 					n := an.CalleeName(&x.Call)
+					if g := an.StaticCallee(&x.Call); g != nil && an.InModule(g) {
+						// the callee's parameters inherit the arguments' marks
+						for ai, arg := range an.CallArgs(&x.Call) {
+							if ai < len(g.Params) && tainted[arg] {
+								mark(tainted, g.Params[ai])
+								if normal[arg] {
+									mark(normal, g.Params[ai])
+								}
+								if untrimmed[arg] {
+									mark(untrimmed, g.Params[ai])
+								}
+							}
+						}
+						// boolean helpers comparing names: their result is not a name
+						if b, ok := x.Type().Underlying().(*types.Basic); ok && b.Kind() == types.Bool {
+							return
+						}
+					}
 					if n == "builtin:len" || caseInsensitiveCmp[n] || caseSensitiveCmp[n] {
 						return
 					}
@@ -857,8 +914,8 @@ func isPreflightEdge(b *ssa.BasicBlock, succ int) bool {
 
 // dominatedByPreflight: every path to `in` passes edges establishing both
 // "method is OPTIONS" and "Access-Control-Request-Method is not empty".
-func dominatedByPreflight(in ssa.Instruction) bool {
-	if an.DominatedByEdge(in, isPreflightEdge) {
+func dominatedByPreflight(roots []*ssa.Function, in ssa.Instruction) bool {
+	if an.DominatedByEdgeDeep(roots, in, isPreflightEdge, deepDefault) {
 		return true
 	}
 	atom := func(which string) func(b *ssa.BasicBlock, succ int) bool {
@@ -879,7 +936,7 @@ func dominatedByPreflight(in ssa.Instruction) bool {
 			return false
 		}
 	}
-	return an.DominatedByEdge(in, atom("method")) && an.DominatedByEdge(in, atom("req"))
+	return an.DominatedByEdgeDeep(roots, in, atom("method"), deepDefault) && an.DominatedByEdgeDeep(roots, in, atom("req"), deepDefault)
 }
 
 // rulePreflightOnly is C12.R3.
@@ -888,11 +945,12 @@ func rulePreflightOnly(c *Ctx, rule string) {
 	c.R.Rule(c.R.Property+"."+rule, 5, "requests that are not preflights never carry the preflight-only headers; origin, credentials and exposed headers are granted to simple requests too")
 	preOnly := map[string]bool{hACAM: true, hACAH: true, hACMA: true}
 	always := map[string]bool{hACAO: true, hACAC: true, hACEH: true}
+	reachH := an.NewGraph(c.P).Reach([]*ssa.Function{handle}, nil)
 	for _, hw := range c.headerWrites() {
-		if hw.f != handle || hw.op == "Del" {
+		if _, in := reachH[hw.f]; !in || hw.op == "Del" {
 			continue
 		}
-		dom := dominatedByPreflight(hw.in)
+		dom := dominatedByPreflight([]*ssa.Function{handle}, hw.in)
 		switch {
 		case preOnly[hw.name]:
 			c.R.Add(rule, c.fk(hw.f), "write:"+hw.name+"/preflight-only", c.pos(hw.in), dom, ifelse(dom, "dominated by the preflight condition", "a preflight-only header can be sent on a request that is not a preflight"))
@@ -907,8 +965,9 @@ func ruleCorsProvenance(c *Ctx, rule string) {
 	handle, _, sanitize := corsFuncs(c)
 	c.R.Rule(c.R.Property+"."+rule, 6, "the granted values are exactly what was configured")
 	fieldOf := map[string]string{hACAH: "recv.allowHeadersString", hACEH: "recv.exposedHeadersString", hACMA: "recv.maxAgeString"}
+	reachH := an.NewGraph(c.P).Reach([]*ssa.Function{handle}, nil)
 	for _, hw := range c.headerWrites() {
-		if hw.f != handle || hw.op == "Del" {
+		if _, in := reachH[hw.f]; !in || hw.op == "Del" {
 			continue
 		}
 		switch hw.name {
@@ -916,13 +975,15 @@ func ruleCorsProvenance(c *Ctx, rule string) {
 			t := c.O.Of(hw.val).String()
 			// the node whose Methods() was tested
 			tested := ""
-			an.AllInstrs(handle, func(in ssa.Instruction) {
-				if call, ok := in.(*ssa.Call); ok && an.CalleeName(&call.Call) == "invoke:types.Node.Methods" {
-					tested = an.AP(call.Call.Value)
-				}
-			})
+			for fn := range reachH {
+				an.AllInstrs(fn, func(in ssa.Instruction) {
+					if call, ok := in.(*ssa.Call); ok && an.CalleeName(&call.Call) == "invoke:types.Node.Methods" {
+						tested = an.AP(call.Call.Value)
+					}
+				})
+			}
 			good := t == "call<invoke:types.Node.AllowHeader>("+strings.Replace(tested, "p:", "param:", 1)+")" && tested != ""
-			c.R.Add(rule, c.fk(handle), "write:"+hACAM+"/value=AllowHeader(tested-node)", c.pos(hw.in), good, ifelse(good, "Allow-Methods is the Allow set of the node whose methods were tested", "Access-Control-Allow-Methods is "+t+", not AllowHeader() of the matched node"))
+			c.R.Add(rule, c.fk(hw.f), "write:"+hACAM+"/value=AllowHeader(tested-node)", c.pos(hw.in), good, ifelse(good, "Allow-Methods is the Allow set of the node whose methods were tested", "Access-Control-Allow-Methods is "+t+", not AllowHeader() of the matched node"))
 		case hACAH, hACEH, hACMA:
 			want := fieldOf[hw.name]
 			t := c.O.Of(hw.val).String()
@@ -937,7 +998,7 @@ func ruleCorsProvenance(c *Ctx, rule string) {
 					return isS && s == "" && an.AP(x) == want && eq != truth
 				})
 			})
-			c.R.Add(rule, c.fk(handle), "write:"+hw.name+"/value="+want, c.pos(hw.in), good && guard, ifelse(good && guard, "the configured string, behind its own non-emptiness", ifelse(!good, "'"+hw.name+"' is written with "+t+" instead of the configured "+want, "'"+hw.name+"' is not guarded by the non-emptiness of its own configured value")))
+			c.R.Add(rule, c.fk(hw.f), "write:"+hw.name+"/value="+want, c.pos(hw.in), good && guard, ifelse(good && guard, "the configured string, behind its own non-emptiness", ifelse(!good, "'"+hw.name+"' is written with "+t+" instead of the configured "+want, "'"+hw.name+"' is not guarded by the non-emptiness of its own configured value")))
 		}
 	}
 	// sanitize derives the strings from the configured lists
@@ -970,4 +1031,16 @@ func ruleCorsProvenance(c *Ctx, rule string) {
 		goodAH = j == 2
 	}
 	c.R.Add(rule, c.fk(sanitize), "derive:allowHeadersString", c.P.Pos(sanitize.Pos()), goodAH, ifelse(goodAH, "= Join(AllowHeaders, \",\") or the '*' form", fmt.Sprintf("allowHeadersString is derived as %v", ah)))
+}
+
+// corsRootsFor: the CORS decision entry when f belongs to it, else f.
+func (c *Ctx) corsRootsFor(f *ssa.Function) []*ssa.Function {
+	handle, _, _ := corsFuncs(c)
+	if f == handle {
+		return []*ssa.Function{handle}
+	}
+	if _, ok := an.NewGraph(c.P).Reach([]*ssa.Function{handle}, nil)[f]; ok {
+		return []*ssa.Function{handle}
+	}
+	return []*ssa.Function{f}
 }
